@@ -177,9 +177,17 @@ def dataframe_clause(rng):
     bad = []
     n = 0
     for ep in (False, True):
+        import sklearn.preprocessing as skp
         for lf in (pykoop.PolynomialLiftingFn(order=2), pykoop.DelayLiftingFn(1, 1),
                    pykoop.KoopmanPipeline(lifting_functions=[('a', pykoop.BilinearInputLiftingFn())]),
-                   pykoop.SplitPipeline(lifting_functions_state=[('p', pykoop.PolynomialLiftingFn(order=2))])):
+                   pykoop.SplitPipeline(lifting_functions_state=[('p', pykoop.PolynomialLiftingFn(order=2))]),
+                   pykoop.SkLearnLiftingFn(skp.StandardScaler()),
+                   pykoop.KoopmanPipeline(lifting_functions=[('s', pykoop.SkLearnLiftingFn(skp.MaxAbsScaler())),
+                                                             ('p', pykoop.PolynomialLiftingFn(order=2))]),
+                   pykoop.SplitPipeline(lifting_functions_state=[('s', pykoop.SkLearnLiftingFn(skp.StandardScaler()))],
+                                        lifting_functions_input=[('d', pykoop.DelayLiftingFn(0, 1))]),
+                   pykoop.ConstantLiftingFn(),
+                   pykoop.AnglePreprocessor(angle_features=np.array([1]))):
             n += 1
             # names with blanks, brackets and operators are names too: they must come out verbatim
             cols = (['episode_no'] if ep else []) + [['pos', 'vel', 'force'], ['cart pos', 'pole angle (rad)', 'motor force'],
@@ -191,6 +199,23 @@ def dataframe_clause(rng):
             (lf.fit_transformers if isinstance(lf, pykoop.KoopmanPipeline) else lf.fit)(
                 df, n_inputs=1, episode_feature=ep)
             names = list(lf.get_feature_names_out())
+            # asking again (any format, any order of the queries) gives the same answer and leaves the fitted names,
+            # and the caller's DataFrame, as they were
+            lf.get_feature_names_out(format='latex')
+            again = list(lf.get_feature_names_out())
+            if again != names or list(df.columns) != cols or \
+                    (hasattr(lf, 'get_feature_names_in') and list(lf.get_feature_names_in()) != cols):
+                bad.append(dict(what='asking for the feature names changed them: a second get_feature_names_out (or the names '
+                                     'given at fit, or the caller\'s DataFrame) differs after the first query',
+                                estimator=repr(lf), first=names, second=again, names_in=list(lf.get_feature_names_in()),
+                                dataframe_columns=list(df.columns), given=cols))
+                continue
+            try:
+                lf.transform(df)
+            except Exception as e:  # noqa
+                bad.append(dict(what=f'transform rejects the very DataFrame the estimator was fitted on after a names query: {type(e).__name__}: {e}',
+                                estimator=repr(lf), given=cols))
+                continue
             for c in cols:
                 if not any(c in nm for nm in names):
                     bad.append(dict(what='a user-supplied column name does not appear in the output names',
@@ -202,7 +227,8 @@ def dataframe_clause(rng):
                 if got_in != cols:
                     bad.append(dict(what='get_feature_names_in does not return the names given at fit', got=got_in, given=cols))
             passthrough = [c for c in cols if c in names]
-            if len(passthrough) < (2 if isinstance(lf, pykoop.DelayLiftingFn) else len(cols)) and not isinstance(lf, pykoop.DelayLiftingFn):
+            wraps = 'SkLearnLiftingFn' in repr(lf) or isinstance(lf, (pykoop.AnglePreprocessor,))
+            if not wraps and len(passthrough) < (2 if isinstance(lf, pykoop.DelayLiftingFn) else len(cols)) and not isinstance(lf, pykoop.DelayLiftingFn):
                 bad.append(dict(what='a column that passes through the lift unchanged is not labelled with its own name',
                                 estimator=repr(lf), given=cols, names=names))
             # the same labels attached to other columns (a DataFrame whose columns are permuted) is not the data the
